@@ -17,6 +17,7 @@ JSON; ``replay`` is a pure function of (scenario, code under test).
 
 import collections
 import copy
+import logging
 import random
 import traceback
 
@@ -202,6 +203,9 @@ def available_scratch(abi, cons):
 # capture seam: RewritingContext._invoke_patch
 
 _CAPTURE = []
+_SILENT = logging.getLogger("machsim.silent")
+_SILENT.setLevel(logging.CRITICAL + 1)
+_SILENT.propagate = False
 
 
 def _install_capture():
@@ -306,7 +310,7 @@ def history_session(w, sc):
         def get_asm(self, ctx):
             return text
 
-    ctx = gtirb_rewriting.RewritingContext(w.m, w.functions)
+    ctx = gtirb_rewriting.RewritingContext(w.m, w.functions, logger=_SILENT)
     ctx.insert_at(w.b1, 0, HistoryCall(Constraints()))
     ctx.apply()
     w.functions = gtirb_functions.Function.build_functions(w.m)
@@ -895,7 +899,7 @@ def execute_c16(sc, params, stats):
             return "nop"
 
     patch = Marker(constraints)
-    ctx = gtirb_rewriting.RewritingContext(w.m, w.functions)
+    ctx = gtirb_rewriting.RewritingContext(w.m, w.functions, logger=_SILENT)
     block, off = [(w.b0, 0), (w.b0, w.first_len), (w.b1, 0)][func.get("site", 0) % 3]
     if func.get("history") and block is w.b1:
         block, off = w.b0, 0
@@ -1221,7 +1225,7 @@ def execute_c17(sc, params, stats):
     except ValueError as e:
         raise core.Rejected(f"CallPatch refused the convention: {e}")
     align_stack = patch.constraints.align_stack
-    ctx = gtirb_rewriting.RewritingContext(w.m, w.functions)
+    ctx = gtirb_rewriting.RewritingContext(w.m, w.functions, logger=_SILENT)
     block, off = [(w.b0, 0), (w.b0, w.first_len), (w.b1, 0)][func.get("site", 0) % 3]
     if func.get("history") and block is w.b1:
         block, off = w.b0, 0
